@@ -113,6 +113,21 @@ def run(prop, spec, tier, seed, scratch, t0):
     except EnoughFailures as e:
         res = e.result
 
+    # the module-level language table must be exactly what the shipped JSON says after everything the
+    # check ran (nothing may mutate shared data)
+    try:
+        from . import impl as _impl
+        with open(os.path.join(core.REPO, "python/gherkin/gherkin-languages.json"), encoding="utf-8") as fh:
+            on_disk = json.load(fh)
+        if _impl.dialects() != on_disk:
+            diff_ = next((n for n in on_disk if _impl.dialects().get(n) != on_disk[n]), "?")
+            res.failures.insert(0, {"stream": "shared-state", "input": {"dialect": diff_},
+                                    "impl": _impl.dialects().get(diff_), "expected": on_disk.get(diff_),
+                                    "what": "gherkin.dialect.DIALECTS (module-level, shared by every matcher) no longer equals the shipped "
+                                            "language table after the run: something mutated it in place"})
+    except Exception:
+        pass
+
     # 5. verdict
     known = core.load_known_findings()
     unknown_failures = []
